@@ -22,6 +22,11 @@ func Strings(before, after string) []Edit {
 		// TODO(adonovan): opt: specialize diffASCII for strings.
 		return diffASCII([]byte(before), []byte(after))
 	}
+	if !utf8.ValidString(before) || !utf8.ValidString(after) {
+		// Not text: an invalid byte decodes to U+FFFD, so rune offsets
+		// cannot be mapped back to byte offsets. Diff the bytes.
+		return diffASCII([]byte(before), []byte(after))
+	}
 	return diffRunes([]rune(before), []rune(after))
 }
 
@@ -34,6 +39,9 @@ func Bytes(before, after []byte) []Edit {
 
 	if isASCIIByte(before) && isASCIIByte(after) {
 		return diffASCII(before, after)
+	}
+	if !utf8.Valid(before) || !utf8.Valid(after) {
+		return diffASCII(before, after) // not text, see Strings
 	}
 	return diffRunes(runes(before), runes(after))
 }
